@@ -5,6 +5,6 @@ ASSUME WriteCases
 Spec == dummy = 0 /\ [][FALSE]_dummy
 ExpFormsDef == {<<>>, <<"0">>, <<"GOODDATE">>, <<"PASTDATE">>, <<"x", "SP", "9">>}
 PhcFieldsDef == [id |-> {"argon2id", "argon2i", "EMPTY"}, ver |-> {"v=19", "v=", "v=x", "19"},
-                 par |-> {"m=65536,t=1,p=2,l=32", "m=65536,t=1,p=2", "m=0,t=1,p=2", "m=99999999999,t=1,p=2", "m=65536,t=1,p=999", "t=1", "m=1=2", "EMPTY", ",,", "m=65536,t=1,p=2,l=4"},
+                 par |-> {"m=65536,t=1,p=2,l=32", "m=65536,t=1,p=2", "m=0,t=1,p=2", "m=99999999999,t=1,p=2", "m=65536,t=1,p=999", "t=1", "m=1=2", "EMPTY", ",,", "m=65536,t=1,p=2,l=4", "m=65536,t=0,p=2", "m=65536,t=1,p=0", "m=8,t=1,p=1"},
                  salt |-> {"SALT16", "SALT24", "SALT8", "!!", "EMPTY"}, hash |-> {"HASH32", "HASH4", "EMPTY", "!!"}]
 =============================================================================
